@@ -76,16 +76,13 @@ int32_t psX509ValidateGeneralName(const char *n)
     return g_validate_rc;
 }
 #ifndef NATIVE_REPLAY
-# include <stdarg.h>
-static int vr_snprintf(char *buf, size_t size, const char *fmt, ...)
+static int vr_snprintf(char *buf, size_t size, const char *fmt, unsigned v0, unsigned v1, unsigned v2, unsigned v3)
 {
     /* C99 7.19.6.5 for "%u.%u.%u.%u": format completely, store at most size-1 characters, then NUL */
     char tmp[4 * 10 + 4];
     unsigned v[4], k, n = 0, i, d, started;
-    va_list ap;
-    va_start(ap, fmt);
-    for (k = 0; k < 4; k++) { v[k] = va_arg(ap, unsigned); }
-    va_end(ap);
+    (void) fmt;                     /* the only reachable call site uses "%u.%u.%u.%u" (matrixssl.c:2568) */
+    v[0] = v0; v[1] = v1; v[2] = v2; v[3] = v3;
     for (k = 0; k < 4; k++)
     {
         started = 0;
@@ -100,7 +97,7 @@ static int vr_snprintf(char *buf, size_t size, const char *fmt, ...)
     if (size > 0) { buf[i] = 0; }
     return (int) n;
 }
-# define Snprintf vr_snprintf
+# define Snprintf(...) vr_snprintf(__VA_ARGS__)
 #endif
 
 /* ---- spec ------------------------------------------------------------ */
